@@ -31,6 +31,8 @@ func runC13(c *Ctx) {
 	scannerVerdictRule(c, "R6")
 	c13SingleCommit(c)
 	c13ReadOnlyIndexScan(c)
+	indexEntryName(c, "R3")
+	attrFilterKeepsOptOuts(c, "R4")
 	fp := p.Fn("commands", "fsckPointer")
 	objs := p.Fn("commands", "doFsckObjects")
 	ptrs := p.Fn("commands", "doFsckPointers")
